@@ -6,6 +6,8 @@ from . import _weaver_ops as W
 from .. import callform, gen, tol
 from ..core import fp_watch
 
+from . import _jobs  # noqa: E402
+
 PROPERTY = "C14"
 LEVEL = "exploration"
 LEVEL_TEXT = ("Post-condition monitor on process.trend / linear_trend / normalize and Weaver.trend / shift_* / scale_* / "
@@ -22,12 +24,16 @@ RULE = ("case = series 2..60 points with x of non-zero origin in >= 80% x trend 
         "not the identity on the series; distinct by case index."
         " Also: trend / normalise through the Weaver after random histories and after negative scales, integer-dtype data (int32, int64, uint8, uint16) with integer-typed target ranges, target ranges ending exactly at 0, documented defaults by omission."
         " Round-4 classes: the callable families of C09, flags / bounds positionally or by name, series of 1001..1800 samples.")
-REQUIRED_MONITORS = ["c14:trend", "c14:trend_additive", "c14:shift_scale", "c14:normalize"]
+REQUIRED_MONITORS = ["threads:domain", "c14:trend", "c14:trend_additive", "c14:shift_scale", "c14:normalize"]
 ASSUMPTIONS = ["scale != 0, min_val < max_val, non-constant array for normalise"]
 NSHARDS = 16
 
 
 def plan(tier, seed):
+    return _plan(tier, seed) + _jobs.plan(tier)
+
+
+def _plan(tier, seed):
     n = 16000 if tier == "quick" else 1000000
     return [{"kind": "random", "start": p * (n // NSHARDS), "count": n // NSHARDS} for p in range(NSHARDS)]
 
@@ -165,11 +171,16 @@ def run_case(ctx, kind_, idx):
                 if int_case:
                     # integer-typed data with an integer-typed target range (counters -> percent, ns -> ms): every
                     # intermediate product must be formed in floating point
-                    dt = [np.int32, np.int64, np.uint8, np.uint16][int(rng.integers(0, 4))]
+                    dt = [np.int32, np.int64, np.uint8, np.uint16, np.int8, np.int16, np.int32][int(rng.integers(0, 7))]
                     top = int(min(np.iinfo(dt).max, 4 * 10 ** 11))
-                    vals = np.unique(rng.integers(0, top, len(a), dtype=np.int64, endpoint=True))
+                    # signed storage used over its whole range (deviations from a set point, signed deltas): the RANGE
+                    # max - min does not fit the type
+                    bottom = int(np.iinfo(dt).min) if np.iinfo(dt).min < 0 and dt != np.int64 and rng.integers(0, 2) else 0
+                    vals = np.unique(rng.integers(bottom, top, len(a), dtype=np.int64, endpoint=True))
+                    if bottom < 0:
+                        vals = np.unique(np.concatenate([vals, [bottom + int(rng.integers(0, 5)), top - int(rng.integers(0, 5))]]))[:max(len(a), 2)]
                     if len(vals) < 2:
-                        vals = np.array([0, top], dtype=np.int64)
+                        vals = np.array([bottom, top], dtype=np.int64)
                     a = (np.sort(vals) if target == "x" else rng.permutation(vals)).astype(dt)
                     lo = int(rng.choice([0, -5, 1]))
                     hi = lo + int(rng.choice([100, 10 ** 5, 10 ** 9, 255]))
@@ -206,7 +217,8 @@ def run_case(ctx, kind_, idx):
                 if not abs(float(g[imax]) - hi) <= 1e-9 * max(abs(lo), abs(hi), rng_t):
                     ctx.violation("normalize_max", cid, {"got": float(g[imax]), "want": hi, "case": info})
                     return
-                want = (a - a.min()) / (a.max() - a.min()) * rng_t + lo
+                af = np.asarray(a, dtype=float)             # the model works in floating point whatever the storage type
+                want = (af - af.min()) / (af.max() - af.min()) * rng_t + lo
                 if not np.max(np.abs(g - want)) <= 1e-9 * max(abs(lo), abs(hi), rng_t):
                     ctx.violation("normalize_not_affine", cid, {"case": info})
                     return
@@ -224,9 +236,13 @@ def run_case(ctx, kind_, idx):
 
 
 def run(ctx, spec):
+    if spec["kind"] == "threads":      # concurrent independent requests vs their sequential answers
+        return _jobs.run(ctx, spec, ["domain"])
     for idx in range(spec["start"], spec["start"] + spec["count"]):
         run_case(ctx, spec["kind"], idx)
 
 
 def replay(ctx, case):
+    if case["kind"] == "threads":
+        return _jobs.run_case(ctx, ["domain"], case["idx"])
     run_case(ctx, case["kind"], case["idx"])
